@@ -522,7 +522,7 @@ fire('c14-sigign-removed', 'C14', 'C14.SIGINT-IGNORED-FIRST',
      (PROC, 'ProcessRunner._subprocess_func', 'signal.signal(signal.SIGINT, signal.SIG_IGN)', 'pass'))
 fire('c14-sigign-after-first-put', 'C14', 'C14.SIGINT-IGNORED-FIRST',
      (PROC, 'ProcessRunner._subprocess_func', '        signal.signal(signal.SIGINT, signal.SIG_IGN)\n', ''),
-     (PROC, 'ProcessRunner._subprocess_func', '            for dependency_task in get_direct_dependencies(task):', '            signal.signal(signal.SIGINT, signal.SIG_IGN)\n            for dependency_task in get_direct_dependencies(task):'))
+     (PROC, 'ProcessRunner._subprocess_func', '            for dependency_task in get_direct_dependency_instances(task):', '            signal.signal(signal.SIGINT, signal.SIG_IGN)\n            for dependency_task in get_direct_dependency_instances(task):'))
 fire('c14-prune-after-yield', ['C14', 'C11'], 'C14.DEQUEUE-BEFORE-DELIVER',
      (PROC, 'ProcessRunner.wait', 'task = self.future_to_task.pop(future)', 'task = self.future_to_task[future]'), note='regression of fix 411fa3a (D10)')
 fire('c14-consume-on-calling-thread', 'C14', 'C14.QUEUE-IN-THREAD',
@@ -639,3 +639,31 @@ fire('cfg-metadata-built-after-visible', 'C13', 'C13.PREPARE-BEFORE-VISIBLE',
      (CACHE, 'BaseCache.save', "                json.dump(metadata, metadata_file, indent=2)", "                json.dump({**metadata, 'task': self.serializer.serialize_task(task)}, metadata_file, indent=2)"))
 fire('cfg-result-put-under-other-id', ['C01', 'C10'], 'SUPPORT.QUEUE-ROUTING',
      (PROC, '_subprocess_target', 'result_queue.put((future_id, result))', 'result_queue.put((0, result))'))
+
+
+# -- regression of fix 64e3d00: the attach loop must enumerate every dependency instance ------------------------------
+fire('c01-attach-through-merged-set', ['C01', 'C02'], 'C01.DEP-MAP-ATTACH',
+     (PROC, 'ProcessRunner._subprocess_func', 'for dependency_task in get_direct_dependency_instances(task):', 'for dependency_task in get_direct_dependencies(task):'),
+     note='regression of fix 64e3d00: P(a=C(1), b=C(1)) - the second, equal instance never receives the results map')
+fire('c01-attach-through-merged-set-serial', ['C01', 'C02'], 'C01.DEP-MAP-ATTACH',
+     ('labtech/runners/serial.py', 'SerialRunner.wait', 'for dependency_task in get_direct_dependency_instances(task):', 'for dependency_task in OrderedSet(get_direct_dependency_instances(task)):'))
+fire('c01-instances-deduplicated', ['C01', 'C02'], 'C01.DEP-MAP-ATTACH',
+     ('labtech/tasks.py', 'get_direct_dependency_instances', """    return [
+        dependency_task
+        for field in fields(task)
+        for dependency_task in find_tasks_in_param(getattr(task, field.name))
+    ]""", """    return list(OrderedSet(
+        dependency_task
+        for field in fields(task)
+        for dependency_task in find_tasks_in_param(getattr(task, field.name))
+    ))"""))
+silent('c01-instances-accumulator-form', ['C01', 'C02'],
+       ('labtech/tasks.py', 'get_direct_dependency_instances', """    return [
+        dependency_task
+        for field in fields(task)
+        for dependency_task in find_tasks_in_param(getattr(task, field.name))
+    ]""", """    found = []
+    for field in fields(task):
+        for dependency_task in find_tasks_in_param(getattr(task, field.name)):
+            found.append(dependency_task)
+    return found"""))
